@@ -16,12 +16,13 @@ import (
 // C08 — processing with --all equals processing each file on its own, in any order.
 
 type c08Case struct {
-	Proj   *project `json:"proj"`
-	Cmd    string   `json:"cmd"` // update | format | compare | compare-github
-	Orders [][]int  `json:"orders"`
-	Leak   string   `json:"leak,omitempty"`  // "", stash, definition, flags
-	Fresh  int      `json:"fresh,omitempty"` // compare only: this many units (in walk order) are updated first, so that stale and current rules are mixed
-	Pad    int      `json:"pad,omitempty"`   // 1, 2: chain offsets in file names are written with leading zeros; 3: offset 0 is written as -chain0
+	Proj      *project `json:"proj"`
+	Cmd       string   `json:"cmd"` // update | format | compare | compare-github
+	Orders    [][]int  `json:"orders"`
+	Leak      string   `json:"leak,omitempty"`       // "", stash, definition, flags
+	Fresh     int      `json:"fresh,omitempty"`      // compare only: this many units (in walk order) are updated first, so that stale and current rules are mixed
+	FreshLast bool     `json:"fresh_last,omitempty"` // the updated units are the last ones in walk order instead of the first
+	Pad       int      `json:"pad,omitempty"`        // 1, 2: chain offsets in file names are written with leading zeros; 3: offset 0 is written as -chain0
 }
 
 var reCompareBlock = regexp.MustCompile(`(?m)^Regex of (\d{6}) has (not changed|changed!)`)
@@ -101,7 +102,11 @@ func c08Check(env *core.Env, cc core.Case) core.Verdict {
 	}
 	fresh := func(root string) {
 		for i := 0; i < c.Fresh && i < len(targets); i++ {
-			_ = cli(env, root, nil, "regex", "update", c.spell(targets[i]))
+			k := i
+			if c.FreshLast {
+				k = len(targets) - 1 - i // the current rules are the last ones of the walk
+			}
+			_ = cli(env, root, nil, "regex", "update", c.spell(targets[k]))
 		}
 	}
 	fresh(rootA)
@@ -225,6 +230,16 @@ func c08Gen(rng *rand.Rand, i int) *c08Case {
 		first, last := targets[0], targets[len(targets)-1]
 		first.File.Sources[first.Key] = "##!> define leakdef REPLACED\nfoo{{leakdef}}\n"
 		last.File.Sources[last.Key] = "bar{{leakdef}}\nbaz\n"
+	case 0:
+		if (i/16)%2 == 1 {
+			// two files whose include files define the same name with other values: nothing may carry over between them
+			c.Leak = "include-definition"
+			first, last := targets[0], targets[len(targets)-1]
+			p.Includes["pathsa"] = "##!> define sep [/:]\ncmd{{sep}}exe\nnet{{sep}}user\n"
+			p.Includes["pathsb"] = "##!> define sep [.,]\ncmd{{sep}}exe\nnet{{sep}}user\n"
+			first.File.Sources[first.Key] = "##!> include pathsa\nalpha\n"
+			last.File.Sources[last.Key] = "##!> include pathsb\nbeta\nuses{{sep}}literally\n"
+		}
 	case 3:
 		c.Leak = "flags"
 		first, last := targets[0], targets[len(targets)-1]
@@ -262,6 +277,7 @@ func c08Gen(rng *rand.Rand, i int) *c08Case {
 	}
 	if strings.HasPrefix(c.Cmd, "compare") && c.Leak == "" && (i/4)%2 == 0 {
 		c.Fresh = 1 + rng.Intn(len(targets))
+		c.FreshLast = (i/8)%2 == 1
 	}
 	n := len(targets)
 	if c.Cmd == "format" {
